@@ -9,6 +9,14 @@
 (* the real Distance / Distancevel / Position / Velocity with the oracles    *)
 (* and the relations of the angle-type parameters (Dihedral, Puckering)      *)
 (* before/after the same actions.                                            *)
+(*                                                                           *)
+(* For the action "reverse" (v -> -v) the same relation - dva = -dv, d2a =    *)
+(* d2 - is demanded at the two places where the program applies a frame's     *)
+(* velocity flag: EngineBase.calculate_order (arrays handed over, frame       *)
+(* flagged as reversed) and Path.reverse (a path of three such frames: the    *)
+(* values come back in reverse order, velocity-type ones with the opposite    *)
+(* sign, position-type ones unchanged; twice restores; the original is not    *)
+(* modified).  Path.reverse does not meet it: open finding L20.               *)
 (***************************************************************************)
 EXTENDS Integers, Sequences, TLC
 
